@@ -64,7 +64,7 @@ def parse_smtlib(text: str):  # noqa: C901
                 char = text[pos]
                 pos += 1
                 comment.append(char)
-                if char == '\n':
+                if char in ('\n', '\r'):
                     break
             comment = ''.join(comment)
             if cur_expr:
@@ -93,12 +93,12 @@ def parse_smtlib(text: str):  # noqa: C901
                 cur_expr = None
 
         # Identifier
-        elif char not in (' ', '\t', '\n'):
+        elif char not in (' ', '\t', '\n', '\r'):
             token = [char]
             while pos < size:
                 char = text[pos]
                 pos += 1
-                if char in (' ', '\t', '\n'):
+                if char in (' ', '\t', '\n', '\r'):
                     break
                 if char in ('(', ')', ';'):
                     pos -= 1
